@@ -31,8 +31,8 @@ BytesVals == {B0, B1, B12, Ta, Nat2I(1), Nil, Arr(<<B1>>)}
 CsVals == {SigMin, SigA0, SigAlg, SigBadSlot, SigBadProt, SigProtTrail, SigArity2, SigNested, SigNilFirst, EmptyArr,
            Arr(<<SigMin>>), Arr(<<SigMin, SigAlg>>), Arr(<<SigMin, Nat2I(1)>>), Arr(<<SigAlg, SigBadProt>>), Arr(<<EmptyArr>>),
            Arr(<<Nat2I(1), Nat2I(2), Nat2I(3)>>), Nil, B0, EmptyMap}
-OtherLabels == {Nat2I(0), Nat2I(8), Nat2I(9), Nat2I(10), Neg2I(1), Neg2I(65537), I63max, N63, Ta, Te}
-OtherVals == {Nat2I(1), B0, Tt, Nil, F15, U64max}
+OtherLabels == {Nat2I(0), Nat2I(8), Nat2I(9), Nat2I(10), Z2I(33), Z2I(256), Neg2I(1), Neg2I(65537), I63max, N63, Ta, Te}
+OtherVals == {Nat2I(1), B0, Tt, Nil, F15, U64max, Arr(<<B1>>)}
 BadLabels == {B1, I63, N63m1, EmptyArr, Nil}
 
 Entries ==
@@ -75,9 +75,11 @@ InvDup == DupOnlyFault => (~D.ok /\ D.err = "DuplicateMapKey")
 AsUnprot == Arr(<<B0, Item, Nil, B0>>)
 AsProt == Arr(<<Bs(Enc(Item)), EmptyMap, Nil, B0>>)
 InvUnprot == LET r == Sign1_FromCbor(AsUnprot) IN (r.ok <=> WFd) /\ (r.ok => r.x.unprot = D.x)
+Strat2 == LET S == <<"w1", "w2", "w4", "w8", "indef", "indef2">> IN S[(Len(Enc(Item)) % 6) + 1]
+AsProt2 == Arr(<<Bs(EncS(Item, Strat2)), EmptyMap, Nil, B0>>)      \* the protected slot itself non-canonically encoded
+InvProt2 == LET r == Sign1_FromCbor(AsProt2) IN (r.ok <=> WFd) /\ (r.ok => r.x.prot.hdr = D.x /\ r.x.prot.orig = <<EncS(Item, Strat2)>>)
 InvProt == LET r == Sign1_FromCbor(AsProt) IN (r.ok <=> WFd) /\ (r.ok => r.x.prot.hdr = D.x /\ r.x.prot.orig = <<Enc(Item)>>)
 
-Strat2 == LET S == <<"w1", "w2", "w4", "w8", "indef", "indef2">> IN S[(Len(Enc(Item)) % 6) + 1]
 
 Expect(ty, item) ==
   IF WF(ty, "", item) THEN [accept |-> TRUE, val |-> <<ValueOf(ty, "", item)>>, err |-> "", pinerr |-> FALSE, judge |-> TRUE]
@@ -88,5 +90,5 @@ Vec(ty, item) == [kind |-> "decode", props |-> <<"C08">>, ty |-> ty, reg |-> "",
                   wires |-> <<Enc(item), EncS(item, Strat2)>>, expect |-> Expect(ty, item)]
 
 Emit == /\ PrintT(ToJson(Vec("Header", Item)))
-        /\ Len(w) > 0 => PrintT(ToJson(Vec("CoseSign1", AsUnprot))) /\ PrintT(ToJson(Vec("CoseSign1", AsProt)))
+        /\ Len(w) > 0 => PrintT(ToJson(Vec("CoseSign1", AsUnprot))) /\ PrintT(ToJson(Vec("CoseSign1", AsProt))) /\ PrintT(ToJson(Vec("CoseSign1", AsProt2)))
 =============================================================================
